@@ -19,7 +19,7 @@ KB = F('8.617333262e-5')   # eV/K, the oracle's own literal (CODATA 2018)
 THRESH = 10 ** 7
 
 BOUNDS = {
-    'quick': 'density grids of shape (2,1,1), (2,2,1), (3,1,1): voxel counts any integers in [0,1000] with at least one > 0; '
+    'quick': 'density grids of shape (2,1,1), (2,2,1), (3,1,1): voxel densities any reals in [0,1000] (also totals below one) with at least one > 0; '
              'temperature any real in (0, 100000]',
     'thorough': 'free-energy grids up to 5 voxels, counts in [0,10^6], temperature in (0, 10^6]; graph builder on grids up to (2,2,2)',
 }
@@ -29,6 +29,7 @@ ASSUMPTIONS = [
     'LOG(1)=0, ln x >= -28 for x >= 1e-12; np.log(0) = -inf, np.nan_to_num(+-inf) = +-largest finite double',
     '"finite" is checked as |value| <= largest finite binary64 (real arithmetic has no overflow)',
     'physical constant k_B[eV/K] read as an exact rational',
+    'a voxel density is 0 or at least 1e-6 (ln p bounded below by the LOG axiom used for the finite-range obligation)',
     'composition: fe_* jobs prove the facts about the free-energy grid (visited: in [0,MAXF]; unvisited: = MAXF); graph_* jobs run the '
     'real graph builder on arbitrary grids carrying exactly these facts',
 ]
@@ -55,10 +56,12 @@ def fe_job(params):
             p.np(gv, gp)
             kb_code = core.rat(sc.physical_constants['Boltzmann constant in eV/K'][0])
             p.set(gv, 'physical_constants', {'Boltzmann constant in eV/K': (kb_code, 'eV K^-1', 0)})
-            x = S([sym_int(f'x_{i}', 0, cmax) for i in range(n)]).reshape(shape)
+            x = S([sym_real(f'x_{i}', 0, cmax) for i in range(n)]).reshape(shape)   # any non-negative density, not only counts
             T = sym_real('temperature', 0, tmax, lo_strict=True)
             flat = x.ravel().tolist()
             assume(disj([v > 0 for v in flat]))
+            for v in flat:   # positive densities are not denormal-small (keeps ln p within the bounded-below axiom)
+                assume(disj([v == 0, v >= F(1, 10 ** 6)]))
             total = core.ssum(flat)
             vol = _volume(gv, x)
             try:
@@ -103,7 +106,7 @@ def fe_job_replay(params, inputs):
     import gemdat.volume as gv
     shape = tuple(params['shape'])
     n = int(np.prod(shape))
-    x = np.array([int(inputs[f'x_{i}']) for i in range(n)], dtype=float).reshape(shape)
+    x = np.array([float(inputs[f'x_{i}']) for i in range(n)], dtype=float).reshape(shape)
     T = float(inputs['temperature'])
     import warnings
     with warnings.catch_warnings():
